@@ -1113,12 +1113,189 @@ func c13DirkRefreshUnits(tier string) []hx.Unit {
 	return units
 }
 
+// group 3c: refresh histories of the wallet manager.  Its refreshAccounts reads wallets from filesystem stores; from
+// the point where the wallets are open it is driven through the in-package hook, the validator refresh and all
+// queries are the manager's own.  Per step the wallet offers {Val1,Val2} or {Val2,Val3} and the beacon node
+// answers, answers with nothing or fails: whatever is reported, directly or by index, is an account the manager
+// holds at that moment, and the by-index queries (asked for every index) agree with the direct ones.
+func c13WalletRefreshUnits(tier string) []hx.Unit {
+	depth := 3
+	if tier == "thorough" {
+		depth = 4
+	}
+	accOps := []string{"A", "B"}
+	valOps := []string{"answer", "empty", "error"}
+	recs := map[string]struct {
+		idx phase0.ValidatorIndex
+		rec c13Rec
+	}{
+		"W/Val1": {3, c13Rec{act: 0, exit: c13FFE, wd: c13FFE}},
+		"W/Val2": {7, c13Rec{act: 0, exit: 3, wd: 5}},
+		"W/Val3": {11, c13Rec{act: 0, exit: c13FFE, wd: c13FFE}},
+	}
+	allNames := []string{"W/Val1", "W/Val2", "W/Val3"}
+	var units []hx.Unit
+	for fa := range accOps {
+		for fv := range valOps {
+			fa, fv := fa, fv
+			st := &c13State{}
+			u := hx.Unit{Name: fmt.Sprintf("C13/refresh/wallet/first=%s+%s/depth-%d", accOps[fa], valOps[fv], depth), Cfg: mc.Config{Fixed: true}, Bound: 0}
+			u.Body = func() {
+				*st = c13State{}
+				ctx := context.Background()
+				prov := &c13Provider{table: map[phase0.BLSPubKey]*apiv1.Validator{}}
+				var allIdx []phase0.ValidatorIndex
+				for _, n := range allNames {
+					k := c13Key("W", strings.TrimPrefix(n, "W/"))
+					prov.table[k] = c13Validator(k, recs[n].idx, recs[n].rec)
+					allIdx = append(allIdx, recs[n].idx)
+				}
+				vm := c13NewVM(prov)
+				wW := &c13Wallet{name: "W"}
+				svc := walletam.VerifNewService([]string{"W"}, [][]byte{[]byte("pw")}, vm, c13ChainTime(), c13FFE, 2)
+				var log []string
+				failed := false
+				for step := 0; step < depth; step++ {
+					a, v := fa, fv
+					if step > 0 {
+						c := mc.Choose(len(accOps)*len(valOps)+1) - 1
+						if c < 0 {
+							break
+						}
+						a, v = c/len(valOps), c%len(valOps)
+					}
+					if accOps[a] == "A" {
+						wW.offer = []e2wtypes.Account{c13NewAccount("W", "Val1"), c13NewAccount("W", "Val2")}
+					} else {
+						wW.offer = []e2wtypes.Account{c13NewAccount("W", "Val2"), c13NewAccount("W", "Val3")}
+					}
+					prov.mode = []int{c13Answer, c13EmptyMap, c13Error}[v]
+					failed = failed || v != 0
+					log = append(log, accOps[a]+"+"+valOps[v])
+					where := fmt.Sprintf("after wallet manager refreshes %v (accounts offered + beacon node)", log)
+					svc.VerifRefreshFromWallets(ctx, []e2wtypes.Wallet{wW})
+					_ = svc.VerifRefreshValidators(ctx)
+					held := svc.VerifAccounts()
+					isHeld := func(acc e2wtypes.Account) bool {
+						if acc == nil {
+							return false
+						}
+						var k phase0.BLSPubKey
+						copy(k[:], acc.PublicKey().Marshal())
+						_, ok := held[k]
+						return ok
+					}
+					type q struct {
+						name   string
+						direct func(context.Context, phase0.Epoch) (map[phase0.ValidatorIndex]e2wtypes.Account, error)
+						byIdx  func(context.Context, phase0.Epoch, []phase0.ValidatorIndex) (map[phase0.ValidatorIndex]e2wtypes.Account, error)
+					}
+					for _, e := range []phase0.Epoch{1, 4} {
+						for _, qq := range []q{{"ValidatingAccountsForEpoch", svc.ValidatingAccountsForEpoch, svc.ValidatingAccountsForEpochByIndex},
+							{"SyncCommitteeAccountsForEpoch", svc.SyncCommitteeAccountsForEpoch, svc.SyncCommitteeAccountsForEpochByIndex}} {
+							d, errD := qq.direct(ctx, e)
+							bi, errI := qq.byIdx(ctx, e, allIdx)
+							if errD != nil || errI != nil {
+								continue
+							}
+							for i, acc := range d {
+								if !isHeld(acc) {
+									st.bad("C13/refresh/wallet-unknown-account", "%s(%d) reports under index %d an account the manager does not hold (or no account) %s", qq.name, e, i, where)
+								}
+							}
+							for i, acc := range bi {
+								if !isHeld(acc) {
+									st.bad("C13/refresh/wallet-unknown-account-by-index", "%sByIndex(%d, all indices) reports under index %d an account the manager does not hold (or no account) %s", qq.name, e, i, where)
+								}
+							}
+							for i := range d {
+								if _, ok := bi[i]; !ok {
+									st.bad("C13/refresh/wallet-by-index-differs", "%sByIndex(%d, all indices) lacks index %d, which %s(%d) reports, %s", qq.name, e, i, qq.name, e, where)
+								}
+							}
+							for i := range bi {
+								if _, ok := d[i]; !ok {
+									st.bad("C13/refresh/wallet-by-index-differs", "%sByIndex(%d, all indices) reports index %d, which %s(%d) does not, %s", qq.name, e, i, qq.name, e, where)
+								}
+							}
+						}
+					}
+				}
+				st.sample = fmt.Sprintf("wallet manager refreshes %v", log)
+				st.nontrivial = failed || len(log) > 1
+				st.outcome = fmt.Sprintf("wallet-refresh: held=%d node-failed=%v", len(svc.VerifAccounts()), failed)
+			}
+			u.Check = func(r *mc.Result) mc.Verdict { return c13Verdict(st, r) }
+			units = append(units, u)
+		}
+	}
+	return units
+}
+
+// group 3d: a large collection: one wallet offering 501 / 1200 accounts (thorough also 499, 500, 2001), all with an
+// active validator: the dirk manager's Refresh makes every one of them a validating account (directly and by
+// index), and the same through the wallet manager.
+func c13ManyAccountsUnits(tier string) []hx.Unit {
+	sizes := []int{501, 1200}
+	if tier == "thorough" {
+		sizes = []int{499, 500, 501, 1200, 2001}
+	}
+	var units []hx.Unit
+	for _, mgr := range []string{"dirk", "wallet"} {
+		mgr := mgr
+		st := &c13State{}
+		u := hx.Unit{Name: "C13/refresh/" + mgr + "/many-accounts", Cfg: mc.Config{Fixed: true}, Bound: 0}
+		u.Body = func() {
+			*st = c13State{}
+			ctx := context.Background()
+			n := sizes[mc.Choose(len(sizes))]
+			prov := &c13Provider{table: map[phase0.BLSPubKey]*apiv1.Validator{}, mode: c13Answer}
+			wW := &c13Wallet{name: "W"}
+			var allIdx []phase0.ValidatorIndex
+			for i := 0; i < n; i++ {
+				name := fmt.Sprintf("Val%d", i)
+				k := c13Key("W", name)
+				prov.table[k] = c13Validator(k, phase0.ValidatorIndex(1000+i), c13Rec{act: 0, exit: c13FFE, wd: c13FFE})
+				wW.offer = append(wW.offer, c13NewAccount("W", name))
+				allIdx = append(allIdx, phase0.ValidatorIndex(1000+i))
+			}
+			vm := c13NewVM(prov)
+			var direct, byIdx map[phase0.ValidatorIndex]e2wtypes.Account
+			var err1, err2 error
+			if mgr == "dirk" {
+				svc := dirkam.VerifNewService([]string{"W"}, map[string]e2wtypes.Wallet{"W": wW}, vm, c13ChainTime(), c13FFE, 2)
+				svc.VerifSetWallet("W", wW)
+				svc.Refresh(ctx)
+				direct, err1 = svc.ValidatingAccountsForEpoch(ctx, 1)
+				byIdx, err2 = svc.ValidatingAccountsForEpochByIndex(ctx, 1, allIdx)
+			} else {
+				svc := walletam.VerifNewService([]string{"W"}, [][]byte{[]byte("pw")}, vm, c13ChainTime(), c13FFE, 2)
+				svc.VerifRefreshFromWallets(ctx, []e2wtypes.Wallet{wW})
+				_ = svc.VerifRefreshValidators(ctx)
+				direct, err1 = svc.ValidatingAccountsForEpoch(ctx, 1)
+				byIdx, err2 = svc.ValidatingAccountsForEpochByIndex(ctx, 1, allIdx)
+			}
+			if err1 != nil || err2 != nil || len(direct) != n || len(byIdx) != n {
+				st.bad("C13/refresh/"+mgr+"-many-accounts", "the %s manager was offered %d accounts, each with an active validator: ValidatingAccountsForEpoch(1) reports %d (err %v), ...ByIndex(1, all indices) %d (err %v)", mgr, n, len(direct), err1, len(byIdx), err2)
+			}
+			st.sample = fmt.Sprintf("%s manager with %d accounts", mgr, n)
+			st.nontrivial = true
+			st.outcome = fmt.Sprintf("%s-many: %d", mgr, n)
+		}
+		u.Check = func(r *mc.Result) mc.Verdict { return c13Verdict(st, r) }
+		units = append(units, u)
+	}
+	return units
+}
+
 func c13Units(tier string) []hx.Unit {
 	var units []hx.Unit
 	units = append(units, c13SpecUnits(tier)...)
 	units = append(units, c13StateUnits(tier)...)
 	units = append(units, c13VMUnits(tier)...)
 	units = append(units, c13DirkRefreshUnits(tier)...)
+	units = append(units, c13WalletRefreshUnits(tier)...)
+	units = append(units, c13ManyAccountsUnits(tier)...)
 	return units
 }
 
